@@ -186,6 +186,13 @@ func (p *poller) Poll(timeoutMs int) (n int, err error) {
 			continue
 		}
 
+		if events&(syscall.EPOLLHUP|syscall.EPOLLERR) != 0 {
+			// Hang-ups and errors are reported by the kernel regardless of the registered interest and without
+			// EPOLLIN/EPOLLOUT (e.g. a pipe whose other end was closed). Wake the registered handlers so that they
+			// observe EOF or the error instead of never being dispatched.
+			events |= PollerReadEvent | PollerWriteEvent
+		}
+
 		if events&slot.Events&PollerReadEvent == PollerReadEvent {
 			// TODO this errors should be reported
 			_ = p.DelRead(slot)
